@@ -324,9 +324,16 @@ class Sim:
 
     def advance(self, d, g):
         end = self.now + d
+        fired = 0
         while True:
             due = [t for t in self.timers if t.deadline <= end]
             if not due:
+                break
+            fired += 1
+            if fired > 5000:       # a zero-length period: the timer chain never lets time pass
+                self.monitor.flag('C12/timer-storm', 'more than 5000 checks ran within %s half-seconds' % fmt(d))
+                for t in list(self.timers):
+                    t.cancel()
                 break
             nxt = min(due, key=lambda t: (t.deadline, t.id))
             if nxt.deadline > self.now:
